@@ -82,7 +82,43 @@ def success_paths(b, F):
 # ---------------------------------------------------------------------------
 
 TRANSPARENT = re.compile(
-    r"::(as_ref|as_slice|as_mut|borrow|deref|clone|into|from|to_owned|as_octets|into_octets|as_bytes|by_ref|as_str)$")
+    r"::(as_ref|as_slice|as_mut|borrow|deref|clone|into|from|to_owned|as_octets|into_octets|as_bytes|by_ref|as_str|"
+    r"into_int|to_int|to_be_bytes|octets|as_u8|into_inner|get|try_into|try_from|unwrap|expect|as_flags)(::<.*>)?$")
+
+
+GETTERS = {}
+
+
+def set_facts(F):
+    """Precompute simple getters (fn(&self) -> field) so that `self.addr()` is
+    treated like `self.addr`."""
+    GETTERS.clear()
+    for p, b in F.bodies.items():
+        if b.nargs != 1 or b.kind != "AssocFn" or not (p.startswith(("rdata::", "base::", "tsig::"))):
+            continue
+        rets = return_assignments(b)
+        if len(rets) != 1 or rets[0][3] is None:
+            continue
+        tt = deep_strip(rets[0][3])
+        if tt[0] == "field" and tt[1] == ("arg", 1) and isinstance(tt[2], str):
+            GETTERS[p] = tt[2]
+
+
+def nogen(path):
+    """def path with every generic argument list removed."""
+    out = []
+    depth = 0
+    for ch in path:
+        if ch == "<":
+            depth += 1
+        elif ch == ">":
+            depth -= 1
+        elif depth == 0:
+            out.append(ch)
+    s = "".join(out)
+    while "::::" in s:
+        s = s.replace("::::", "::")
+    return s.rstrip(":")
 
 
 def field_path(t, root_arg=1):
@@ -97,6 +133,9 @@ def field_path(t, root_arg=1):
             t = strip(t[1])
         elif k == "downcast":
             t = strip(t[1])
+        elif k == "call" and t[1] and t[1] in GETTERS and t[3]:
+            names.append(GETTERS[t[1]])
+            t = strip(t[3][0])
         elif k == "call" and t[1] and TRANSPARENT.search(t[1]) and t[3]:
             t = strip(t[3][0])
         elif k == "cast":
@@ -107,6 +146,30 @@ def field_path(t, root_arg=1):
             return ".".join(names[::-1])
         else:
             return None
+    return None
+
+
+def last_seg(fn):
+    """Last path segment of a def path, ignoring generic argument lists."""
+    out = []
+    depth = 0
+    for ch in fn:
+        if ch == "<":
+            depth += 1
+        elif ch == ">":
+            depth -= 1
+        elif depth == 0:
+            out.append(ch)
+    return "".join(out).replace("::::", "::").rstrip(":").split("::")[-1]
+
+
+def _len_of_field(t):
+    """If t is (a conversion of) `len()` / `compose_len()` of a self field, that field's path."""
+    for s in walk(t):
+        if s[0] == "call" and s[1] and re.search(r"::(len|compose_len)$", s[1]) and s[3]:
+            f = field_path(s[3][0])
+            if f:
+                return f
     return None
 
 
@@ -163,8 +226,36 @@ def compose_tokens(b, F, depth=0):
             if kind in ("name:compress", "octets"):
                 if len(args) >= 2:
                     fld = field_path(args[1])
+                    if fld is None and kind == "octets":
+                        arr = deep_strip(args[1])
+                        if arr[0] == "agg" and arr[1][0] == "array":
+                            # append_slice(&[self.a.into(), self.b.into(), ..]): one octet per element
+                            elems = [field_path(e) for e in arr[2]]
+                            if all(e is not None for e in elems):
+                                for e in elems:
+                                    toks.append((e, "int:u8", bb in cyc))
+                                continue
+                        lf = _len_of_field(arr)
+                        if lf is not None:
+                            toks.append((lf, "len:arr", bb in cyc))
+                            continue
             elif kind is not None and args:
                 fld = field_path(args[0])
+                if fld is None and kind.startswith("int:"):
+                    lf = _len_of_field(deep_strip(args[0]))
+                    if lf is not None:
+                        toks.append((lf, "len:" + kind[4:], bb in cyc))
+                        continue
+            if kind == "octets" and fld is not None and len(args) >= 2:
+                for s in walk(deep_strip(args[1])):
+                    if s[0] == "call" and s[1]:
+                        m = re.search(r"<impl (u8|u16|u32|u64|i8|i16|i32|i64)>::to_be_bytes$", s[1])
+                        if m:
+                            kind = "int:be:" + m.group(1)
+                        elif s[1].endswith("Ipv4Addr::octets"):
+                            kind = "fixed:4"
+                        elif s[1].endswith("Ipv6Addr::octets"):
+                            kind = "fixed:16"
             if kind is not None and fld is not None:
                 if fld == "" and depth < 3:
                     # helper on self: inline
@@ -312,6 +403,18 @@ def parse_field_order(b, F, adt):
                     for cb in underlying_calls(t) | {s[5] for s in walk(deep_strip(t)) if s[0] == "call"}:
                         call_to_field.setdefault(cb, f)
         t = blk["t"]
+        if t["k"] == "call" and t["fn"] and re.search(r"Result::<.*>::map(::<.*>)?$", t["fn"]) and len(t["args"]) == 2 \
+                and t["args"][1][0] == "k" and t["args"][1][3]:
+            ctor = re.sub(r"::<[^:]*>$", "", t["args"][1][3])
+            cands = [p for p in F.bodies if p == t["args"][1][3] or nogen(p) == nogen(t["args"][1][3])]
+            for cp in cands:
+                fm = ctor_field_map(F, cp)
+                if fm and 1 in fm:
+                    ctor_seen = True
+                    tt = b.term_of_operand(t["args"][0])
+                    for cb2 in underlying_calls(tt) | {s[5] for s in walk(deep_strip(tt)) if s[0] == "call"}:
+                        call_to_field.setdefault(cb2, fm[1])
+                    break
         if t["k"] == "call" and t["fn"] and re.search(r"::(new|new_unchecked|from_octets_unchecked|new_impl)(::<.*>)?$", t["fn"]):
             ret_ty = b.locals[t["dest"][0]] if t["dest"] and len(t["dest"]) == 1 else ""
             if adt in ret_ty:
@@ -363,14 +466,24 @@ def rdlen_summands(b, F):
         if t[0] == "cast":
             go(t[2])
             return
+        if t[0] == "bin" and t[1] == "Mul" and const_value(t[2]) is not None and const_value(t[3]) is not None:
+            out.append(("const", const_value(t[2]) * const_value(t[3])))
+            return
+        if t[0] == "field" and strip(t[1])[0] == "downcast":
+            go(strip(t[1])[1])
+            return
         if t[0] == "call" and t[1]:
-            last = t[1].split("::")[-1]
-            if last in ("expect", "unwrap", "try_from", "unwrap_or", "into", "from") and t[3]:
+            last = last_seg(t[1])
+            if last in ("checked_add", "saturating_add", "wrapping_add") and len(t[3]) == 2:
+                go(t[3][0])
+                go(t[3][1])
+                return
+            if last in ("expect", "unwrap", "try_from", "try_into", "unwrap_or", "into", "from") and t[3]:
                 go(t[3][0])
                 return
             fld = field_path(t[3][0]) if t[3] else None
             if last == "compose_len" and fld is not None:
-                out.append(("name", fld))
+                out.append(("clen", fld))
                 return
             if last == "len" and fld is not None:
                 out.append(("len", fld))
@@ -441,6 +554,7 @@ def cmp_sequence(b, F):
 
 def rdata_types(F):
     """ADTs implementing ComposeRecordData in rdata::* (not the dispatch enums)."""
+    set_facts(F)
     out = {}
     for im in F.impls:
         if im["trait"] == "base::rdata::ComposeRecordData" and im["self_adt"] and im["self_adt"].startswith("rdata::") \
